@@ -3,6 +3,8 @@ CONSTANTS
   Rel = "rfc"
   Budget = 0
   Foreign = TRUE
+  Track = "rfc"
+  Demux = "link"
 INVARIANTS TypeOK NeverAdminDown UpMeansPeerAlive KnowsPeer
 PROPERTIES SilenceMeansDown Recovers StaysUp
 CHECK_DEADLOCK FALSE
